@@ -8,7 +8,7 @@
       Err             = AssertionError;   Fuel = the explicit fuel ran out (excluded in the statements)
     [ns] = g_resolution_no_shadow: [true] is the repaired loop (current tree), [false] the pinned loop (D6). *)
 From Coq Require Import ZArith NArith List Bool Lia.
-From Pi2 Require Import Taut.Model Taut.Stages Taut.Sets Taut.Resolution Taut.Complete Taut.Termination Taut.PLModel Taut.ProofLayer Taut.BuildTerm.
+From Pi2 Require Import Taut.Model Taut.Stages Taut.Sets Taut.Resolution Taut.Complete Taut.Termination Taut.PLModel Taut.ProofLayer Taut.BuildTerm Taut.ProofLayer2 Taut.Glue Taut.Merge Taut.Glue2.
 Import ListNotations.
 
 (* ------------------------------------------------------------------------------------------ *)
@@ -259,3 +259,86 @@ Example C09_stage_proofs_conc_nonvacuous :
         KImp (KImp (KVar 0) (KVar 1)) (KImp (nn (KVar 0)) (KVar 1)),
         Some (KImp (KImp (nn (KVar 0)) (KVar 1)) (KImp (KVar 0) (KVar 1)))).
 Proof. reflexivity. Qed.
+
+(** to_clauses (4th stage): the and/or-assoc shifting schemas built with MetaVar(i+3) and applied through
+    imp_trans_match1/2 (match_single + instantiate, modelled by [kmatch]/[ksubst]) yield literally
+    `cnf -> clause conjunction` and back, for every CNF tree *)
+Theorem C09_to_clauses_proofs_conc : forall t, is_cnf t = true ->
+  exists cs, to_clauses t = Some cs /\ cs <> [] /\
+    to_clauses_p t = Some (cs, KImp (cf_core t) (cls_core cs), KImp (cls_core cs) (cf_core t)).
+Proof. exact to_clauses_p_conc. Qed.
+Print Assumptions C09_to_clauses_proofs_conc.
+Example C09_to_clauses_proofs_nonvacuous :
+  let t := CAnd false (CAnd false (CVar false 0) (CAnd false (CVar true 1) (CVar false 2)))
+                      (COr false (COr false (CVar false 0) (COr false (CVar false 1) (CVar true 2))) (CVar false 3)) in
+  is_cnf t = true /\
+  to_clauses_p t = Some ([[1]; [-2]; [3]; [1; 2; -3; 4]]%Z,
+                         KImp (cf_core t) (cls_core [[1]; [-2]; [3]; [1; 2; -3; 4]]%Z),
+                         KImp (cls_core [[1]; [-2]; [3]; [1; 2; -3; 4]]%Z) (cf_core t)).
+Proof. split; vm_compute; reflexivity. Qed.
+
+(** Final glue — PARTIAL (proved modulo three named helper specs).
+    Full statement: for every f, if prove_tautology returns (True, pf) then pf's conclusion is literally f, if it
+    returns (False, pf) then literally neg f; likewise start_resolution_algorithm returns a proof of the clause
+    conjunction / of its negation, and build_proof_from_hint a proof of `conjunction -> clause`.
+    Proved: exactly that, for the schema-level model [prove_tautology_p] (all four stages, conjunction_implies_nth,
+    the resolution_* rules, resolution_step, long_imp_trans, and_intro chain, dneg_elim/modus_ponens glue are
+    modelled and composed), for EVERY formula, fuel and loop variant, under [helper_specs P]:
+      H_simplify  simplify_clause(cl, x)[1] concludes  clause(cl) <-> clause(simplified cl)      (runner: QP S)
+      H_merge     merge_clauses(l, len l, r) concludes  clause(l) \/ clause(r) <-> clause(l++r)   (runner: QP M)
+      H_trivial   prove_trivial_clause(cl) concludes  clause(cl)  when cl has complementary literals (runner: QP T)
+    (these three rest on ac_move_to_front / reduce_n_or_duplicates_at_front, not modelled; each is checked on the
+    implementation on every run by executing the returned ProofThunk; [spec_pieces_ok] shows the specs are consistent).
+    The model's conclusions are tied to the implementation's ProofThunk.conc on every run (pl=, plc=, pll=, plf=). *)
+Theorem C09_prove_tautology_conc_partial : forall P, helper_specs P ->
+  forall ns fuel f r, decide ns fuel f = Ok r ->
+  prove_tautology_p P ns fuel f =
+  Ok (match r with
+      | Some true => Some (true, expand f)
+      | Some false => Some (false, k_neg (expand f))
+      | None => None
+      end).
+Proof. exact prove_tautology_conc_modulo. Qed.
+Print Assumptions C09_prove_tautology_conc_partial.
+
+Theorem C09_start_resolution_conc_partial : forall P, helper_specs P ->
+  forall ns fuel cls vd l h, start_resolution ns fuel cls = Ok (vd, l, h) -> clauses_nz cls ->
+  start_resolution_p P ns fuel cls =
+  Ok (match vd with
+      | Some true => Some (true, cls_core cls)
+      | Some false => Some (false, k_neg (cls_core cls))
+      | None => None
+      end).
+Proof. exact start_resolution_conc_modulo. Qed.
+Print Assumptions C09_start_resolution_conc_partial.
+
+Example C09_prove_tautology_conc_nonvacuous :
+  helper_specs spec_pieces /\
+  prove_tautology_p spec_pieces true 1000 d6_witness = Ok (Some (true, expand d6_witness)) /\
+  prove_tautology_p spec_pieces true 1000 (FAnd (FVar 0) (FNeg (FVar 0)))
+    = Ok (Some (false, k_neg (expand (FAnd (FVar 0) (FNeg (FVar 0)))))).
+Proof. split; [exact spec_pieces_ok|split; vm_compute; reflexivity]. Qed.
+
+(** merge_clauses modelled ([s_merge]: equiv_refl / equiv_sym(or_assoc) / equiv_transitivity / or_cong) and its spec
+    proved: H_merge is discharged *)
+Theorem C09_merge_clauses_conc : forall l r, l <> [] -> r <> [] ->
+  s_merge (clause_core l) (length l) (clause_core r)
+  = Some (k_equiv (k_or (clause_core l) (clause_core r)) (clause_core (l ++ r))).
+Proof. exact s_merge_conc. Qed.
+Print Assumptions C09_merge_clauses_conc.
+Example C09_merge_clauses_nonvacuous :
+  s_merge (clause_core [1; -2; 3]%Z) 3 (clause_core [3; 4]%Z)
+  = Some (k_equiv (k_or (clause_core [1; -2; 3]%Z) (clause_core [3; 4]%Z)) (clause_core [1; -2; 3; 3; 4]%Z)).
+Proof. vm_compute. reflexivity. Qed.
+
+(** the glue theorem with merge_clauses discharged: only H_simplify (QP S) and H_trivial (QP T) remain *)
+Theorem C09_prove_tautology_conc2_partial : forall simp triv, helper_specs2 simp triv ->
+  forall ns fuel f r, decide ns fuel f = Ok r ->
+  prove_tautology_p (pieces_merge simp triv) ns fuel f =
+  Ok (match r with
+      | Some true => Some (true, expand f)
+      | Some false => Some (false, k_neg (expand f))
+      | None => None
+      end).
+Proof. exact prove_tautology_conc_modulo2. Qed.
+Print Assumptions C09_prove_tautology_conc2_partial.
